@@ -194,7 +194,7 @@ def body_solution(H, case, work):
         if key == "sparse_solver":
             H.prove("option sparse_solver round-trips", getattr(have, "value", have) == getattr(want, "value", want))
         elif want is None or have is None or isinstance(want, (bool, str)) or isinstance(have, (bool, str)):
-            H.prove(f"option {key} round-trips ({want!r})", (want is None and have is None) or (type(want) == type(have) and want == have) or (isinstance(want, (int, float)) and not isinstance(want, bool) and have == want))
+            H.prove(f"option {key} round-trips ({want!r})", same_plain(want, have))
         else:
             H.prove_eq(f"option {key} round-trips", have, want)
     # ---- device ------------------------------------------------------------------------------------
@@ -231,6 +231,20 @@ def body_solution(H, case, work):
     same_solution(H, "stand-alone file", alone, sol, expected)
 
 
+def same_plain(want, have):
+    """None / bool / str / plain number option values: same kind and equal (real HDF5 attributes come back
+    as numpy scalars: numpy.bool_ for bool, numpy.int64 for int ...)"""
+    if want is None or have is None:
+        return want is None and have is None
+    if isinstance(want, bool):
+        return isinstance(have, (bool, np.bool_)) and bool(have) == want
+    if isinstance(want, str):
+        return isinstance(have, str) and have == want
+    if isinstance(have, (bool, np.bool_, str)):
+        return False
+    return bool(have == want)
+
+
 def same_dynamics(H, tag, got, want):
     for nm in ("dt", "mu", "theta", "screening_iterations"):
         a, b = getattr(got, nm), getattr(want, nm)
@@ -249,7 +263,7 @@ def same_solution(H, tag, got, want, expected):
         if key in ("sparse_solver",):
             ok = ok and getattr(h, "value", h) == getattr(w, "value", w)
         elif w is None or h is None or isinstance(w, (bool, str)):
-            ok = ok and ((w is None and h is None) or (type(w) == type(h) and w == h))
+            ok = ok and same_plain(w, h)
         elif hasattr(w, "re") or hasattr(h, "re"):
             ok = ok and str(getattr(h, "re", h)) == str(getattr(w, "re", w))
         elif key != "output_file":
